@@ -73,6 +73,17 @@ func vfC06Oracle(in *vfGWInst, evFull string, pre, post *vfSnap) {
 			in.count("fanout_kept_across_heartbeat_checks")
 		}
 	}
+	// "members that announced they already have the message": an announcement stands until it expires (heartbeats) or
+	// the peer goes; an IDONTWANT RPC adds to what its sender announced before, it never takes anything back. (The
+	// recipient rule below reads the router's own record of announcements, so the record itself is judged here.)
+	if f[0] == "idw" && post.Ticks == pre.Ticks {
+		for id := range pre.Unwanted[f[1]] {
+			if _, still := post.Unwanted[f[1]][id]; !still {
+				in.bad("c06:announcement-forgotten", "%s had announced IDONTWANT for %s; its next IDONTWANT RPC (%s) made the router forget that", f[1], id, ev)
+			}
+		}
+		in.count("idontwant_rpcs_judged")
+	}
 	// anything that crosses the wire in a non-publish step must not be a payload message,
 	// except replies to IWANT (not in this alphabet) -- judged by C17
 	if f[0] != "pub" && f[0] != "lpub" && f[0] != "lpubbatch" {
@@ -341,7 +352,7 @@ func vfC06Scenarios(thorough bool) []*vfGWScenario {
 	}
 	pubs := []string{"pub:a:m1", "pub:b:m2", "pub:c:m3", "pub:e:m4", "lpub:t:p1", "lpub:t:p2:local"}
 	mk("gs-joined", "gossip", peers, false, append(connSub(peers, "abcde"), "join:t"),
-		append([]string{"graft:a:t", "graft:e:t", "prune:b:t", "idw:a:m1", "idw:b:m3", "score:c:-3", "score:c:-2", "score:a:-3", "unsub:b:t", "sub:b:t", "leave:t", "hb"}, pubs...))
+		append([]string{"graft:a:t", "graft:e:t", "prune:b:t", "idw:a:m1", "idw:a:m3", "idw:b:m3", "score:c:-3", "score:c:-2", "score:a:-3", "unsub:b:t", "sub:b:t", "leave:t", "hb"}, pubs...))
 	mk("gs-fanout", "gossip", peers, false, connSub(peers, "abce"),
 		append([]string{"sub:d:t", "score:a:-3", "score:a:-2", "score:b:-3", "unsub:a:t", "sub:a:t", "hb", "adv:3500", "adv:2000", "join:t", "relay:t", "idw:a:m1", "lpub:t:p5"}, pubs...))
 	// (which candidates refill the fanout at a heartbeat is the explorer's choice too: an eligible member that was
